@@ -352,6 +352,7 @@ class GenObj(Abs):
         self.thread = None
         self.done = False
         self.abort = False
+        self.pending_throw = None
         self.msg = None
         it.generators.append(self)
 
@@ -402,6 +403,17 @@ class GenObj(Abs):
         self.resume.acquire()
         if self.abort:
             raise _GenAbort()
+        if self.pending_throw is not None:
+            ex, self.pending_throw = self.pending_throw, None
+            raise ex
+
+    def throw(self, ex):
+        """generator.throw(exc): the exception is raised inside the body at the yield it is suspended at"""
+        if self.done or self.thread is None:
+            self.done = True
+            raise ex
+        self.pending_throw = ex
+        return self.next()
 
     def close(self):
         if self.thread is not None and not self.done:
@@ -419,6 +431,48 @@ class GenObj(Abs):
                 if ex.cls_name == "StopIteration":
                     return out
                 raise
+
+
+class CtxGen(Abs):
+    """What a function under contextlib.contextmanager returns: __enter__ runs the generator to its yield, __exit__
+    resumes it (normally, or by throwing the exception of the with-body into it)."""
+
+    def __init__(self, gen):
+        self.gen = gen
+
+    def __repr__(self):
+        return "CtxGen(%s)" % self.gen.name
+
+    def enter(self, it, a, k):
+        try:
+            return self.gen.next()
+        except AbsRaise as ex:
+            if ex.cls_name == "StopIteration":
+                raise AbsRaise("RuntimeError", ("generator didn't yield",))
+            raise
+
+    def exit(self, it, a, k):
+        typ, val = (a + [None, None])[:2]
+        if typ is None:
+            try:
+                self.gen.next()
+            except AbsRaise as ex:
+                if ex.cls_name == "StopIteration":
+                    return False
+                raise
+            raise AbsRaise("RuntimeError", ("generator didn't stop",))
+        thrown = AbsRaise(val.cls.split(".")[-1] if isinstance(val, AObj) else str(typ), val.attrs.get("args", ()) if isinstance(val, AObj) else ())
+        if isinstance(val, AObj):
+            thrown.cls_qual = val.cls
+        try:
+            self.gen.throw(thrown)
+        except AbsRaise as ex:
+            if ex.cls_name == "StopIteration":
+                return True            # the generator swallowed the exception
+            if ex is thrown:
+                return False           # re-raised as it is: the with statement propagates the original
+            raise
+        raise AbsRaise("RuntimeError", ("generator didn't stop after throw()",))
 
 
 class Env(object):
@@ -908,6 +962,20 @@ class Interp(object):
 
     _MEMO_DECORATORS = {"lru_cache", "functools.lru_cache", "cache", "functools.cache"}
 
+    def _decorator_name(self, module, d):
+        """Qualified name of a decorator expression: resolved through the module's imports (aliases included) when it
+        names something outside the package, else its text."""
+        e = d.func if isinstance(d, ast.Call) else d
+        try:
+            r = self.repo.resolve_expr(module, e) if module is not None else None
+        except Exception:
+            r = None
+        if r and r[0] == "external":
+            return r[1]
+        if r and r[0] in ("func", "class"):
+            return None                    # a decorator defined in the package
+        return norm(e)
+
     def _memo_decorated(self, f):
         """True if the function carries a standard-library memoising decorator (functools.lru_cache / cache): the
         decorated function returns the *same object* for equal arguments for as long as the process lives."""
@@ -916,11 +984,8 @@ class Interp(object):
         if hit is None:
             hit = False
             for d in getattr(node, "decorator_list", ()):
-                dn = norm(d.func if isinstance(d, ast.Call) else d)
-                if dn in self._MEMO_DECORATORS:
-                    r = self.repo.resolve_expr(f.module, d.func if isinstance(d, ast.Call) else d) if f.module is not None else None
-                    if not (r and r[0] == "func"):
-                        hit = True
+                if self._decorator_name(f.module, d) in self._MEMO_DECORATORS:
+                    hit = True
             try:
                 node._sa_memo = hit
             except AttributeError:
@@ -1005,6 +1070,9 @@ class Interp(object):
         if _is_generator(node):
             g = GenObj(self, node, env, ctx, f.name)
             env.vars["__gen__"] = g
+            if any(self._decorator_name(f.module, d) in ("contextmanager", "contextlib.contextmanager")
+                   for d in getattr(node, "decorator_list", ())):
+                return CtxGen(g)
             return g
         self.depth += 1
         if self.depth > self.max_depth:
@@ -1254,6 +1322,8 @@ class Interp(object):
                     return Prim(m, "%s.%s" % (type(obj).__name__, name))
                 if name == "closed":
                     return getattr(obj, "closed", False)
+            if isinstance(obj, CtxGen) and name in ("__enter__", "__exit__"):
+                return Prim(obj.enter if name == "__enter__" else obj.exit, "contextmanager." + name)
             if isinstance(obj, (GenObj, ListIter, CallIter)) and name in ("__next__", "next"):
                 return Prim(lambda it, a, k, o=obj: o.next(), "next")
             if isinstance(obj, GenObj) and name == "close":
